@@ -60,6 +60,8 @@ def judge_names(v, rows, stats):
                 v.note_drift(f"name {nm!r}: model resolves to {b['resolved']!r}, code to {o['resolved']!r}")
             elif verdict == "inside" and (o["st"] != "ok" or o["changed"] != [o["expected_rel"]]):
                 v.note_drift(f"name {nm!r}: model saves to {o['expected_rel']}, code {o['st']} {o['cls']} {o['changed']}")
+            elif verdict == "inside-or-no-url" and not ((o["st"] == "ok" and o["changed"] == [o["expected_rel"]]) or (o["st"] == "err" and o["cls"] == "JoinUrl")):
+                v.note_drift(f"name {nm!r}: model saves to {o['expected_rel']} or fails to build a URL, code {o['st']} {o['cls']} {o['changed']}")
             elif verdict == "unsafe-path" and o["st"] != "err":
                 v.note_drift(f"name {nm!r}: model refuses (absolute), code {o['st']}")
         elif b["ok"] and "load" in o:
